@@ -1,6 +1,6 @@
 (* C02: generated deserializers decode every byte string as the specification prescribes.
    Statements only; proofs in Spec/WireThm*.v, Codec/Refine.v and Codec/RefineDes*.v. *)
-From Verif Require Import Wire WireThm WireThmRt WireThmExt WireThmValid Walker Refine RefineDesBase PrimsOn RefineDes WalkerBound InstancesC InstancesCpp InstancesPy InstancesTyped BulkArrays BulkArraysDes.
+From Verif Require Import Wire WireThm WireThmRt WireThmExt WireThmValid Walker Refine RefineDesBase PrimsOn RefineDes WalkerBound InstancesC InstancesCpp InstancesPy InstancesTyped BulkArrays BulkArraysDes WireThmErr WalkerOpt WalkerOptThm InstancesOpt CppWalker CppWalkerThm CppWalkerInst PyDesWalker PyDesWalkerThm PyDesWalkerInst WalkerXDes RefineDesX.
 Local Open Scope nat_scope.
 
 (* the reported number of consumed bytes never exceeds the number supplied *)
@@ -49,20 +49,6 @@ Theorem c02_bad_header : forall u fs x bs, (N.of_nat (length (skipn header_bits 
 Proof. exact dec_bad_header. Qed.
 Print Assumptions c02_bad_header.
 
-(* the code-shaped walker decodes as specified, for the fragment stated in Refine.v *)
-Theorem c02_walker_des_refines_partial : forall P t bits, prims_ok P -> walk_fragment t = true -> length bits mod 8 = 0 ->
-  walk_des P t bits = des_spec t bits.
-Proof. exact walk_des_refines_prims. Qed.
-Print Assumptions c02_walker_des_refines_partial.
-
-Theorem c02_walker_des_refines_bytes_partial : forall t bytes, walk_fragment t = true ->
-  walk_des_obs t bytes = des_spec t (bits_of_bytes bytes).
-Proof. exact walk_des_refines_partial. Qed.
-Print Assumptions c02_walker_des_refines_bytes_partial.
-
-Example c02_fragment_inhabited :
-  walk_fragment (TComp true [TPrim (PU 13 false); TVar (TPrim PBool) 9; TFix (TPrim (PF 16 true)) 3] (Some 128)) = true.
-Proof. reflexivity. Qed.
 
 (* FULL deserialization refinement (Codec/RefineDes.v): for every primitive record satisfying the laws, EVERY type - nested sealed
    and delimited composites at any depth, arrays of composites, unions with composite members - and every whole-byte bit string,
@@ -212,16 +198,121 @@ Theorem c02_c_bulk_bool_des : forall buf cap off n (output : list N),
 Proof. exact c_bulk_bool_des. Qed.
 Print Assumptions c02_c_bulk_bool_des.
 
-(* finding F-PY-DES-ASSERT: the quirk-faithful model of the generated Python deserializer (assert consumed <= max bit length of
-   the type) refuses an input the specification accepts *)
+(* ROUND 4 (audit follow-up).
+   (B) DE-TOTALISED reads (Codec/WalkerOpt.v: the walker over OPTION-valued reads, a `None` - C: access outside the allocation /
+       undefined behaviour, Python: raised exception - aborts with EAssert, which `dec_body` never produces): every read the walker
+       issues on the primitive models is defined, so the functional instance theorems are not satisfied through the zero default of
+       the total adapters. *)
+Theorem c02_walk_des_reads_defined : forall O P B t bits,
+  (forall cap off w, cap <= length bits -> off + w <= B -> 1 <= w -> o_get O bits cap off w = Some (get_bits P bits cap off w)) ->
+  wf_ty t = true -> length bits + tsz t <= B -> walk_des_o O t bits = walk_des P t bits.
+Proof. exact walk_des_o_defined. Qed.
+Print Assumptions c02_walk_des_reads_defined.
+
+Theorem c02_c_walk_des_defined : forall (little : bool) t bits, wf_ty t = true -> length bits mod 8 = 0 ->
+  (N.of_nat (length bits + tsz t) < CPrims.two64)%N ->
+  walk_des_o (c_oprims little) t bits = des_spec t bits.
+Proof. exact c_walk_des_defined. Qed.
+Print Assumptions c02_c_walk_des_defined.
+
+Theorem c02_cpp_walk_des_defined : forall t bits, wf_ty t = true -> length bits mod 8 = 0 ->
+  (N.of_nat (length bits + tsz t) < CPrims.two64)%N ->
+  walk_des_o cpp_oprims t bits = des_spec t bits.
+Proof. exact cpp_walk_des_defined. Qed.
+Print Assumptions c02_cpp_walk_des_defined.
+
+Theorem c02_py_walk_des_defined : forall t bits, wf_ty t = true -> length bits mod 8 = 0 ->
+  walk_des_o py_oprims t bits = des_spec t bits.
+Proof. exact py_walk_des_defined. Qed.
+Print Assumptions c02_py_walk_des_defined.
+
+Example c02_undefined_read_is_detected :
+  walk_des_o {| o_get := fun _ _ _ _ => None |} (TComp false [TPrim (PU 8 true)] None) (repeat false 8) = Err EAssert.
+Proof. reflexivity. Qed.
+
+(* (D) THE BULK ARRAY PATH AS PART OF THE ROUTINE (Codec/WalkerXDes.v, RefineDesX.v): `walk_des_x` reads every array whose element
+       type satisfies `WalkerSafe.bulk` (bool, or the TRANSLATED `is_zero_cost_primitive`) by ONE nunavutGetBits call (`getl`: the
+       n*w bits at the cursor, zero-extended past the capacity) and takes the elements from the object; it decodes exactly as the
+       specification prescribes, from the read law plus the GetBits law.  (For the C function the content of that law is
+       c02_c_bulk_des_elements; the instance of this routine-level theorem with CPrims.get_bits additionally needs the cursor
+       bound of WalkerBound.v for `wd_body_x`, which is not yet transferred.) *)
+Theorem c02_walker_x_des_refines_from_laws : forall P getl cf (Wd : nat -> Prop) t bits,
+  (forall w, 1 <= w <= 64 -> Wd w) -> get_law P Wd bits ->
+  (forall cap off m, cap <= length bits -> cap mod 8 = 0 -> getl bits cap off m = take_ze m (skipn off (firstn cap bits))) ->
+  ((forall w, Wd w) \/ wf_ty t = true) -> length bits mod 8 = 0 ->
+  walk_des_x P getl cf t bits = des_spec t bits.
+Proof. exact walk_des_x_refines_on. Qed.
+Print Assumptions c02_walker_x_des_refines_from_laws.
+
+(* (E) TARGET-SHAPED deserialization walkers (audit C02 #3, C01 #4) instead of the C walker run over foreign primitives.
+   C++ (Codec/CppWalker.v, lang/cpp/templates/deserialization.j2: reads always through getU*/getI*/getBit/getF*, `align_offset_to<8>`,
+   nested sealed objects through `subspan()` advancing by the reported (clamped) size, delimited ones through
+   `subspan_bytes(header)`, result min(offset, capacity)/8): *)
+Theorem c02_cpp_shaped_walk_des_refines_from_laws : forall Q (Wd : nat -> Prop) t bits,
+  (forall w, 1 <= w <= 64 -> Wd w) -> cget_law Q Wd bits -> wf_ty t = true -> length bits mod 8 = 0 ->
+  cpp_walk_des Q t bits = des_spec t bits.
+Proof. exact cpp_walk_des_refines_on. Qed.
+Print Assumptions c02_cpp_shaped_walk_des_refines_from_laws.
+
+Theorem c02_cpp_shaped_walk_des_refines : forall t bits, wf_ty t = true -> length bits mod 8 = 0 ->
+  (N.of_nat (length bits + tsz t) < CPrims.two64)%N ->
+  cpp_walk_des cppw_prims t bits = des_spec t bits.
+Proof. exact cppw_walk_des_refines. Qed.
+Print Assumptions c02_cpp_shaped_walk_des_refines.
+
+(* Python (Codec/PyDesWalker.v, lang/py/templates/deserialization.j2: ONE shared Deserializer - nested sealed objects continue on the
+   same cursor, so the walker's cursor always equals the specification's; fetch_aligned_{u,i}N when standard width and statically
+   aligned, else fetch_{aligned,unaligned}_{unsigned,signed}; fetch_unaligned_bit; float fetchers; the NumPy array fetchers
+   array_of_bits / array_of_standard_bit_length_primitives; delimited objects through fork_bytes(header) + skip_bits).  The static
+   alignment analysis is a parameter `sa`: the theorem holds for every sound annotation.  nunavut_support.deserialize reports no
+   consumed size, so the statement is on the value / error (`res_val`). *)
+Theorem c02_py_shaped_walk_des_refines : forall sa t bs, sa_sound sa -> wf_ty t = true -> length bs mod 8 = 0 ->
+  py_walk_des pyd_prims sa t bs = res_val (des_spec t bs).
+Proof. exact pyd_walk_des_refines_sa. Qed.
+Print Assumptions c02_py_shaped_walk_des_refines.
+
+Theorem c02_py_shaped_walk_body_refines : forall sa t bs, sa_sound sa -> wf_ty t = true -> length bs mod 8 = 0 ->
+  pdw_body pyd_prims sa t nil bs 0 = dec_body t bs.
+Proof. exact pyd_walk_body_refines. Qed.
+Print Assumptions c02_py_shaped_walk_body_refines.
+
+Theorem c02_py_shaped_walk_des_refines_from_laws : forall Q sa t bs, pyd_laws Q -> sa_sound sa -> wf_ty t = true ->
+  length bs mod 8 = 0 -> py_walk_des Q sa t bs = res_val (des_spec t bs).
+Proof. exact py_walk_des_refines_on. Qed.
+Print Assumptions c02_py_shaped_walk_des_refines_from_laws.
+
+(* (F) ERROR CHARACTERISATION (Spec/WireThmErr.v): a decode fails only with one of the three wire errors; WHICH one is the first
+       offending node in decoding order (`first_bad`: a length prefix above its capacity, a union tag >= the number of variants, a
+       delimiter header above the remaining bytes of the current (sub)stream, all earlier siblings decoding fine); errors other than
+       EBadHdr are stable under zero extension, and a result other than EBadHdr does not change at all. *)
+Theorem c02_dec_err_set : forall t bs e, dec_body t bs = Err e -> e = EBadLen \/ e = EBadTag \/ e = EBadHdr.
+Proof. exact dec_err_set. Qed.
+Print Assumptions c02_dec_err_set.
+
+Theorem c02_dec_err_iff_first_bad : forall t bs e, dec_body t bs = Err e <-> first_bad t bs e.
+Proof. exact dec_body_err_iff. Qed.
+Print Assumptions c02_dec_err_iff_first_bad.
+
+Theorem c02_dec_err_zero_ext : forall t bs e k, dec_body t bs = Err e -> e <> EBadHdr ->
+  dec_body t (bs ++ repeat false k) = Err e.
+Proof. exact dec_err_zero_ext. Qed.
+Print Assumptions c02_dec_err_zero_ext.
+
+Theorem c02_dec_zero_ext_settles : forall t bs k, dec_body t bs <> Err EBadHdr ->
+  dec_body t (bs ++ repeat false k) = dec_body t bs.
+Proof. exact dec_zero_ext_settles. Qed.
+Print Assumptions c02_dec_zero_ext_settles.
+
+Theorem c02_dec_err_zero_ext_unrestricted_refuted :
+  ~ (forall t bs e k, dec_body t bs = Err e -> dec_body t (bs ++ repeat false k) = Err e).
+Proof. exact dec_err_zero_ext_unrestricted_refuted. Qed.
+Print Assumptions c02_dec_err_zero_ext_unrestricted_refuted.
+
+(* (the quirk model of the removed Python assertion `consumed <= bit_length_set.max` - `Wire.dec_body_pa`, theorem
+   c02_py_assert_refuted - and the superseded fragment theorems c02_walker_des_refines_partial / _bytes_partial live in
+   coq/theories/History/C01_C02_history.v: /repo removed the assertion in 657d6ac, so they describe historical behaviour only) *)
 Definition ex_bar : ty := TComp false [TPrim (PU 8 true); TPrim (PU 8 true)] (Some 64).
 Definition ex_outer : ty := TComp false [ex_bar; TPrim (PU 8 true)] None.
-Definition ex_bytes : list N := [9; 0; 0; 0; 1; 2; 3; 4; 5; 6; 7; 8; 9; 10]%N.
-Theorem c02_py_assert_refuted : wf_ty ex_outer = true /\
-  des_spec ex_outer (bits_of_bytes ex_bytes) = Ok (VStruct [VStruct [VInt 1; VInt 2]; VInt 10], 14) /\
-  des_spec_pa ex_outer (bits_of_bytes ex_bytes) = Err EAssert.
-Proof. vm_compute. repeat split; reflexivity. Qed.
-Print Assumptions c02_py_assert_refuted.
 
 Example c02_example_zero_ext : des_spec ex_outer [] = Ok (VStruct [VStruct [VInt 0; VInt 0]; VInt 0], 0).
 Proof. vm_compute. reflexivity. Qed.
@@ -269,3 +360,26 @@ Theorem c02_c_array_paths : forall b p w z,
   TplTie.emits TplTieBase.KCall TplTie.pat8 (TplTie.c_farr_des f) = (b || (p && z))%bool.
 Proof. exact TplTie.c_array_paths. Qed.
 Print Assumptions c02_c_array_paths.
+
+(* ---- DERIVED tie of the C deserialization templates (Codec/TplSem.v) ---- *)
+From Verif Require TplSem.
+Theorem c02_c_des_templates_are_walker_plans :
+  (forall f, TplSem.sem_c_des TplSem.m_des_int (TplSem.rho_int f) = TplSem.plan_des_int f /\
+             TplSem.sem_c_des TplSem.m_des_bool (TplSem.rho_int f) = TplSem.plan_des_bool f /\
+             TplSem.sem_c_des TplSem.m_des_void (TplSem.rho_int f) = TplSem.plan_des_void) /\
+  (forall f, TplSem.sem_c_des TplSem.m_des_float (TplSem.rho_float f) = TplSem.plan_des_float) /\
+  (forall f, flat_map TplSem.bulk_is_loop (TplSem.sem_c_des TplSem.m_des_farr (TplSem.rho_arr f)) = TplSem.walker_ser_farr /\
+             flat_map TplSem.bulk_is_loop (TplSem.sem_c_des TplSem.m_des_varr (TplSem.rho_arr f)) = TplSem.walker_des_varr) /\
+  (forall f, TplSem.sem_c_des TplSem.m_des_comp (TplSem.rho_comp f) = TplSem.plan_des_comp f /\
+             TplSem.sem_c_des TplSem.m_des_impl (TplSem.rho_loop f) = TplSem.plan_des_impl f /\
+             TplSem.sem_c_des TplSem.m_pad (TplSem.rho_comp f) = TplSem.plan_des_pad).
+Proof. exact TplSem.c_des_templates_are_walker_plans. Qed.
+Print Assumptions c02_c_des_templates_are_walker_plans.
+
+(* the integer / bool plans ARE Walker.r_prim *)
+Theorem c02_r_prim_is_plan : forall P w sat buf cap off little,
+  r_prim P (PU w sat) buf cap off = TplSem.exec_des_uint P (TplSem.plan_des_int (TplSem.facts_int true sat w off little)) w buf cap off /\
+  r_prim P (PS w sat) buf cap off = TplSem.exec_des_sint P (TplSem.plan_des_int (TplSem.facts_int false sat w off little)) w buf cap off /\
+  r_prim P PBool buf cap off = TplSem.exec_des_bool P (TplSem.plan_des_bool (TplSem.facts_int true sat w off little)) buf cap off.
+Proof. exact TplSem.r_prim_is_plan. Qed.
+Print Assumptions c02_r_prim_is_plan.
